@@ -239,6 +239,13 @@ class Check:
         if len(self.cov["samples"]) < 12:
             self.cov["samples"].append(s)
 
+    def sample_each(self, rows, names):
+        for name in names:
+            for r in rows:
+                if r.get("e") == name:
+                    self.sample(r)
+                    break
+
     def nontrivial(self, key):
         self._nontrivial.add(key)
 
